@@ -84,6 +84,7 @@ def main(bdir, gen_dir, aux, exported_file, built_file=None):
     cy_consts, cy_protos = X.cython_extract(repo, cc)
     consts['cython'] = cy_consts
     consts['java'], java_dynamic = X.java_constants(repo)
+    jfeed = X.java_dynamic_feed(repo, java_dynamic, cc)
     consts['idl'], idl_info = X.idl_constants(repo)
     cy_bodies = X.cython_bodies(repo)
     protos = dict(fortran=X.fortran_protos(repo), pascal=X.pascal_protos(repo), cython=cy_protos)
@@ -137,6 +138,20 @@ def main(bdir, gen_dir, aux, exported_file, built_file=None):
                 report['diffs'].append(d)
                 if key in fkeys: kn.append(k)
         known['const_' + b] = kn
+    # ---- Java constants without initialiser: XRayInit() reads them from the head of xraylib.dat, java/pr_data_java.c writes that head.
+    #      (java field, value of the C expression written into its slot) must agree with the C macro of the field's name
+    for c, sl, rd in jfeed['feed']:
+        if c.name in cc and cc[c.name].val() != c.val():
+            key = 'java/Xraylib.java %s' % c.name
+            report['diffs'].append(dict(kind='constant-dynamic', binding='java', name=c.name, file='java/Xraylib.java', line=rd['line'], found='%s = %s' % (sl['expr'], c.show()), expected=cc[c.name].show(),
+                                        cfile=cc[c.name].file, cline=cc[c.name].line, key=key, text=c.text,
+                                        what='java/Xraylib.java:%d XRayInit() reads %s as scalar number %d of xraylib.dat; java/pr_data_java.c:%d writes `%s` there (`%s %s = %s;` at line %d) = %s; %s:%d has %s = %s' % (
+                                            rd['line'], c.name, jfeed['reads'].index(rd) + 1, sl['line'], sl['var'], sl['ctype'], sl['var'], sl['expr'], sl['decl_line'], c.show(), cc[c.name].file, cc[c.name].line, c.name, cc[c.name].show()),
+                                        known=key in fkeys))
+    for pb in jfeed['problems']:
+        key = ('java/Xraylib.java %s' % pb['field']) if pb['file'].endswith('.java') or not pb['field'].startswith('slot ') else 'java/pr_data_java.c %s' % pb['field']
+        report['diffs'].append(dict(kind='constant-dynamic', binding='java', name=pb['field'], file=pb['file'], line=pb['line'], found=pb['found'], expected=pb['expected'], key=key,
+                                    what='%s:%d: run-time loaded Java constant %s: %s' % (pb['file'], pb['line'], pb['field'], pb['found']), known=key in fkeys))
     # ---- families ---------------------------------------------------------------------------------------
     fam = {f: sorted((n for n in cc if X.family_of(n) == f), key=nat_of) for f in X.FAMILIES}
     publishes = {}
@@ -344,6 +359,15 @@ def main(bdir, gen_dir, aux, exported_file, built_file=None):
         L.append('def names_%s : List Nat := const_%s.map (·.n)' % (b, b)); L.append('')
         emit_table(L, 'known_const_' + b, 'Nat', sorted(known['const_' + b], key=nat_of), lambda n: str(nat_of(n)), 'known findings (constants): ' + ' '.join(known['const_' + b]))
         emit_table(L, 'known_fam_' + b, 'Nat', sorted(known['fam_' + b], key=nat_of), lambda n: str(nat_of(n)), 'known findings (family members not published): ' + ' '.join(known['fam_' + b]))
+    TC = dict(int=0, double=1)
+    emit_table(L, 'const_java_dynamic', 'E', sorted(((c.name, c) for c, sl, rd in jfeed['feed']), key=lambda kv: nat_of(kv[0])), rE,
+               'Java constants without initialiser (filled by XRayInit() from the head of xraylib.dat): (field name, value of the C expression java/pr_data_java.c writes into the slot the field is read from): '
+               + ' '.join('%s<-%s' % (c.name, sl['expr']) for c, sl, rd in jfeed['feed']).replace('-/', '- /'))
+    emit_table(L, 'java_dynamic_declared', '(Nat × Nat)', sorted(((nat_of(n), TC[ty]) for n, ty, ln in java_dynamic)), lambda x: '(%d,%d)' % x, '(field, type: 0 int / 1 double) of the `public static int|double NAME;` fields of java/Xraylib.java')
+    emit_table(L, 'java_dynamic_read', '(Nat × Nat)', sorted(((nat_of(r['field']), TC[r['jtype']]) for r in jfeed['reads'])), lambda x: '(%d,%d)' % x, '(field, type of the get…() call) of the leading scalar reads of XRayInit()')
+    emit_table(L, 'java_dynamic_unevaluated', 'Nat', sorted(nat_of(u['field']) for u in jfeed['unevaluated']), str, 'fields whose slot is written from an expression that is neither a macro name nor a literal (not evaluated by the extractor): ' + ' '.join('%s<-%s' % (u['field'], u['expr']) for u in jfeed['unevaluated']).replace('-/', '- /'))
+    emit_table(L, 'java_dynamic_slot_types', 'Nat', [TC[sl['ctype']] for sl in jfeed['slots']], str, 'types of the leading scalar fwrite()s of java/pr_data_java.c, in file order')
+    emit_table(L, 'java_dynamic_read_types', 'Nat', [TC[r['jtype']] for r in jfeed['reads']], str, 'types of the leading scalar reads of XRayInit(), in file order')
     for f in X.FAMILIES:
         emit_table(L, 'fam_' + f, 'Nat', fam[f], lambda n: str(nat_of(n)), 'C names of the %s family (%d)' % (f, len(fam[f])))
     def rP(p, name=None): return '⟨%d,%d,[%s]⟩' % (nat_of(name or p.cname), X.ty_code(*p.ret), ','.join(str(X.ty_code(*a)) for a in p.args))
@@ -422,12 +446,14 @@ def main(bdir, gen_dir, aux, exported_file, built_file=None):
     js = dict(c=dict(constants={n: c.js() for n, c in cc.items()}, prototypes={n: p.js() for n, p in cp.items()}, public_functions=public_fns),
               bindings={b: [c.js() for _, c in tables[b]] for b in BINDINGS}, publishes=publishes,
               protos={s: [p.js() for p in protos[s]] for s in PROTO_SETS}, swig=swig, cpp=cpp, versions=vers, exported=len(exported),
-              java_dynamic=java_dynamic, idl=idl_info, known=known, diffs=report['diffs'], findings=[list(f) for f in findings],
+              soft_tie=['%s:%d: the expression written into xraylib.dat for the Java constant %s is neither a macro name nor a literal, the extractor does not evaluate it: %s' % (u['file'], u['line'], u['field'], u['expr']) for u in jfeed['unevaluated']],
+              java_dynamic=java_dynamic, java_dynamic_feed=[dict(field=c.name, c_expression=sl['expr'], value=c.show(), c_type=sl['ctype'], java_type=rd['jtype'], written_at='java/pr_data_java.c:%d' % sl['line'], read_at='java/Xraylib.java:%d' % rd['line'],
+                                                                    c_header=cc[c.name].show() if c.name in cc else None) for c, sl, rd in jfeed['feed']], idl=idl_info, known=known, diffs=report['diffs'], findings=[list(f) for f in findings],
               wrappers={k: dict(calls=len(v['calls']), named=len(v['named']), native=v['native'], direct=len(v['direct'])) for k, v in wr.items()},
               structs=dict(c=[st.js() for st in cst.values()], **{k: [st.js() for st in v] for k, v in bstructs.items()}),
               pascal_public=[p_.js() for p_ in pu['public']], idl_routines=dict(dlm=idlf['dlm'], sysfun=idlf['sysfun'], defined_not_registered=idlf['unregistered']),
               build=dict(bdef, built=built, facts=[[t_, ok] for t_, ok in facts]), libtool=libtool, soname=[list(x) for x in pu['soname']], swig_invocations=swig_inv, swig_unincluded=swig_unincluded,
-              counts=dict(c_constants=len(cc), c_prototypes=len(cp), **{'const_' + b: len(tables[b]) for b in BINDINGS}, **{'proto_' + s: len(protos[s]) for s in PROTO_SETS},
+              counts=dict(c_constants=len(cc), c_prototypes=len(cp), java_dynamic=len(jfeed['feed']), **{'const_' + b: len(tables[b]) for b in BINDINGS}, **{'proto_' + s: len(protos[s]) for s in PROTO_SETS},
                           swig_refs=len(swig['refs']), cpp_refs=len(cpp['refs']), versions=len(vers), families={f: len(fam[f]) for f in fam},
                           **{'calls_' + k: len(v['calls']) + len(v['direct']) for k, v in wr.items()}, **{'struct_' + k: len(v) for k, v in bstructs.items()}, c_structs=len(cst),
                           pascal_public=len(pu['public']), pascal_iface=len(iface), idl_dlm=len(idlf['dlm']), idl_sysfun=len(idlf['sysfun']), lib_sources=len(bdef['meson']),
